@@ -26,7 +26,8 @@ RULE = ('send: 1-5 method calls through DBusClientConnection.callRemote on a UNI
         'descriptors) whose descriptors are all, or all but the last few, queued before the first byte, under four '
         'chunkings. Non-trivial = >=2 descriptor-carrying messages with a descriptor '
         'of a later message queued before an earlier message completes; distinct = distinct case JSON. send_again: one prepared '
-        'message object sent 2-3 times (one or two connections): every transmission carries its descriptors.')
+        'message object sent 2-3 times (one or two connections): every transmission carries its descriptors. bad_tail: a call '
+        'refused because an argument AFTER its descriptors cannot be encoded leaves nothing behind.')
 ASSUMPTIONS = ['the transport double stands in for the kernel: descriptors are delivered through '
                'fileDescriptorReceived in sending order and never after the last byte of their message',
                'only method calls carry descriptors (the only path txdbus offers)']
@@ -92,6 +93,8 @@ def send_case(draw, tier):
         calls.append({'sig': sig, 'trees': trees, 'nh': nh, 'pres': draw(S.presentation)})
         if nh and draw(st.integers(0, 5)) == 0:
             calls[-1]['bad_at'] = draw(st.integers(0, 5))
+        elif nh and len(sig) < 200 and draw(st.integers(0, 4)) == 0:
+            calls[-1]['bad_tail'] = True      # an argument AFTER the descriptors cannot be encoded: the call is refused
     return {'calls': calls}
 
 
@@ -148,11 +151,18 @@ def run_send(case):
                 bad = toks0[call['bad_at'] % len(toks0)]
                 call = dict(call, trees=_replace_tokens(call['sig'], call['trees'], lambda t, bad=bad: -1 if t == bad else t))
             body = S.to_py_list(call['sig'], call['trees'], call['pres']) if call['sig'] else None
+            send_sig = call['sig']
+            if call.get('bad_tail') and call['nh']:
+                # the descriptors were already marshalled when the client finds it cannot encode the last argument:
+                # the refused call must leave nothing behind - not on the transport, not in the connection
+                send_sig = call['sig'] + 's'
+                body = list(body) + [12345]
+                call = dict(call, bad_at=0)
             results = []
             refused = False
             try:
                 d = rig.conn.callRemote('/obj', 'Take', interface='org.verif.Fd', destination='org.verif.Peer',
-                                        signature=call['sig'] or None, body=body)
+                                        signature=send_sig or None, body=body)
                 d.addBoth(results.append)
             except Exception as e:
                 if call.get('bad_at') is None:
@@ -218,6 +228,8 @@ def classify_send(case):
         labels.append('multi_fd_call')
     if any(c.get('bad_at') is not None and c['nh'] for c in case['calls']):
         labels.append('unusable_descriptor')
+    if any(c.get('bad_tail') and c['nh'] for c in case['calls']):
+        labels.append('call_refused_after_its_descriptors_were_marshalled')
     return sum(nh) > 0, labels
 
 
